@@ -83,8 +83,9 @@ pub fn parse_console(text: &str) -> Result<Vec<Ev>, String> {
         if !["recv", "send", "drop"].contains(&verb) {
             return Err(format!("unknown verb {:?} in line {:?}", verb, line));
         }
-        if f.len() != want {
-            return Err(format!("{} {} line has {} tab-separated columns, expected {}: {:?}", layer, verb, f.len(), want, line));
+        // a line cut short is incomplete; further columns behind the known ones are the format's business
+        if f.len() < want {
+            return Err(format!("{} {} line has {} tab-separated columns, expected at least {}: {:?}", layer, verb, f.len(), want, line));
         }
         let mut fields = Vec::new();
         if layer == "arp" {
@@ -257,6 +258,34 @@ pub fn reached(cfg: &Cfg, f: &[u8]) -> (Vec<&'static str>, Option<&'static str>)
     (r, None)
 }
 
+/// the layer names a frame's own headers lead to, whatever any layer decides about it
+pub fn header_chain(f: &[u8]) -> Vec<&'static str> {
+    let mut r = vec![];
+    let v = match view_request(f) {
+        Some(v) => v,
+        None => return r,
+    };
+    r.push("eth");
+    match v.ethertype {
+        ET_ARP => r.push("arp"),
+        ET_V4 | ET_V6 => {
+            let v4 = v.ethertype == ET_V4;
+            r.push(if v4 { "ipv4" } else { "ipv6" });
+            if let Some(ip) = &v.ip {
+                match ip.proto {
+                    P_ICMP if v4 => r.push("icmpv4"),
+                    P_ICMP6 if !v4 => r.push("icmpv6"),
+                    P_TCP => r.push("tcp"),
+                    P_UDP => r.push("udp"),
+                    _ => {}
+                }
+            }
+        }
+        _ => {}
+    }
+    r
+}
+
 pub fn judge_events(cfg: &Cfg, f: &[u8], evs: &[Ev], replied: Option<&Vec<u8>>) -> Check {
     let (must, may) = reached(cfg, f);
     let seq: Vec<String> = evs.iter().map(|e| format!("{}:{}", e.layer, e.verb)).collect();
@@ -284,14 +313,23 @@ pub fn judge_events(cfg: &Cfg, f: &[u8], evs: &[Ev], replied: Option<&Vec<u8>>) 
         }
     }
     vensure!(stack.is_empty(), "layer(s) {:?} logged 'recv' but no terminal event ('send' or 'drop'): {}", stack, ctx());
-    // the layers that logged = the layers the frame reached
-    let mut want: Vec<&str> = must.clone();
+    // which layers a frame reaches is the code's decision (a layer may decline a packet that its
+    // successor would have taken): the log can only be held against what is observable —
+    // (a) the layers that logged form a prefix of the chain the frame's own headers allow
+    //     (Ethernet, then ARP / IPv4 / IPv6 by EtherType, then the transport named by the IP header);
+    // (b) a reply frame was built by every layer it consists of: each of them must have logged.
+    let mut chain: Vec<&str> = must.clone();
     if let Some(x) = may {
-        if recvd.contains(&x) {
-            want.push(x);
+        chain.push(x);
+    }
+    let full = header_chain(f);
+    let chain: Vec<&str> = if full.len() > chain.len() && full[..chain.len()] == chain[..] { full } else { chain };
+    vensure!(!recvd.is_empty() && recvd.len() <= chain.len() && recvd[..] == chain[..recvd.len()], "layers that logged {:?} are not a prefix of the layers the frame's headers lead to {:?}: {}", recvd, chain, ctx());
+    if let Some(r) = replied {
+        for l in header_chain(r) {
+            vensure!(recvd.contains(&l), "a reply frame with a {} layer was emitted but layer {} logged nothing (logged: {:?}): {}", l, l, recvd, ctx());
         }
     }
-    vensure!(recvd == want, "layers that logged {:?} differ from the layers the frame reached {:?}: {}", recvd, want, ctx());
     // Ethernet terminal = send iff a reply was returned
     let eth_term = evs.iter().rev().find(|e| e.layer == "eth" && e.verb != "recv").map(|e| e.verb.as_str());
     vensure!(evs.last().map(|e| e.layer.as_str()) == Some("eth"), "the last event is not the Ethernet terminal: {}", ctx());
